@@ -31,6 +31,22 @@ def make_cases(tier, profile):
         cases.append(dict(name=l + ' [every user is a local operator by default_user_modes]', line=l, judges=['no_panic', 'inv', 'opcmd', 'umode'], spec=lspec))
     # a nick change to a configured operator name confers nothing
     cases.append(dict(name='NICK opname [operators: opname]', line='NICK opname', judges=['no_panic', 'inv', 'nick'], spec=dict(base, operators=[('opname', 'goodpw', None)])))
+    if tier != 'quick':
+        # every one- and two-letter mode change (all sign combinations), three configurations; operator commands over four users with symbolic channel membership
+        import itertools
+        done = {c['name'] for c in cases}
+        L = 'oOiwr'
+        strs = [a + x for a in '+-' for x in L] + [a + x + b + y for a in '+-' for b in '+-' for x in L for y in L] + ['+' + x + y for x in L for y in L if x != y] + ['+ooo', '-OoO', '+z', '+o bob', '+']
+        for opers in ([], [('alice', 'goodpw', None)], [('opname', 'goodpw', 'bob!*@*')]):
+            tag = ' [operators: %s]' % (','.join(o[0] for o in opers) or 'none')
+            for ms in strs:
+                line = 'MODE alice ' + ms
+                if line + tag in done: continue
+                cases.append(dict(name=line + tag, line=line, judges=['no_panic', 'inv', 'umode'], spec=dict(base, operators=opers)))
+        big = dict(base, sym_users=True, nicks=['alice', 'bob', 'carol', 'erin'], sym_ranks=True, sym_away=True, sym_invites=True)
+        for l in ['KILL bob :go away', 'KILL erin', 'KILL carol :x y', 'KILL alice :self', 'DIE', 'SQUIT irc.irc :stop', 'WALLOPS :attention', 'OPER opname goodpw', 'OPER alice goodpw']:
+            cases.append(dict(name=l + ' [four users, symbolic channels]', line=l, judges=['no_panic', 'inv', 'opcmd'] if not l.startswith('OPER') else ['no_panic', 'inv', 'oper'],
+                              spec=dict(big, operators=[('opname', 'goodpw', 'a*!*@*')] if l.startswith('OPER') else [])))
     cases.append(dict(name='NICK opname, then MODE opname +o', prelude=[('alice', 'NICK opname')], line='MODE opname +o', actor='alice', judges=['no_panic'],
                       spec=dict(base, operators=[('opname', 'goodpw', None)]), post_judge='after_rename'))
     return cases
